@@ -267,8 +267,15 @@ func Sendfile(out, in int, off *int64, count int) (int, error) {
 	return syscall.Sendfile(out, in, off, count)
 }
 
+// CloseHook, when set, is called at the entry of Close on a virtual descriptor, before it is marked
+// closed: a yield point inside a connection's teardown (after the closed flag was set).
+var CloseHook func(fd int)
+
 func Close(fd int) error {
 	if v := get(fd); v != nil {
+		if h := CloseHook; h != nil {
+			h(fd)
+		}
 		v.mu.Lock()
 		v.Closed = true
 		v.Log = append(v.Log, "close")
